@@ -45,16 +45,31 @@ pub fn generate_shape(tier: Tier) -> Vec<String> {
                 _ => " #[darling(with = keep_body)] pub data: u8, pub generics: syn::Generics ",
             };
             src.push_str(&format!("#[derive(darling::FromDeriveInput)]\n#[darling(supports({}))]\npub struct S{m} {{{members}}}\nimpl vrt::ToVal for S{m} {{ fn to_val(&self) -> vmodel::ir::Val {{ vmodel::ir::Val::Unit }} }}\n", words.join(", ")));
-            reg.push_str(&format!("    v.push(vrt::shape::ShapeEntry {{ mask: {m}, variant_receiver: false, gathered: false, converts_body: {}, run: vrt::run::run_from_derive_input::<S{m}> }});\n", m % 3 == 1));
+            reg.push_str(&format!("    v.push(vrt::shape::ShapeEntry {{ mask: {m}, variant_receiver: false, gathered: false, converts_body: {}, alt_mask: None, run: vrt::run::run_from_derive_input::<S{m}> }});\n", m % 3 == 1));
         }
         if k == 0 {
+            // `supports(..)` written twice (one attribute, two attributes): the lists add up or
+            // the last one stands - never anything else
+            let singles = [0usize, 1, 2, 5, 6, 7, 10];
+            let mut n2 = 0;
+            for a in singles {
+                for b in singles {
+                    for split in [false, true] {
+                        let (wa, wb) = (WORDS[a], WORDS[b]);
+                        let attr = if split { format!("#[darling(supports({wa}))]\n#[darling(supports({wb}))]") } else { format!("#[darling(supports({wa}), supports({wb}))]") };
+                        src.push_str(&format!("#[derive(darling::FromDeriveInput)]\n{attr}\npub struct S2_{n2} {{}}\nimpl vrt::ToVal for S2_{n2} {{ fn to_val(&self) -> vmodel::ir::Val {{ vmodel::ir::Val::Unit }} }}\n"));
+                        reg.push_str(&format!("    v.push(vrt::shape::ShapeEntry {{ mask: {}, variant_receiver: false, gathered: false, converts_body: false, alt_mask: Some({}), run: vrt::run::run_from_derive_input::<S2_{n2}> }});\n", 1usize << b, (1usize << a) | (1usize << b)));
+                        n2 += 1;
+                    }
+                }
+            }
             for m in 0..32usize {
                 let words: Vec<&str> = VWORDS.iter().enumerate().filter(|(i, _)| m >> i & 1 == 1).map(|(_, w)| *w).collect();
                 src.push_str(&format!("#[derive(darling::FromVariant)]\n#[darling(supports({}))]\npub struct SV{m} {{}}\nimpl vrt::ToVal for SV{m} {{ fn to_val(&self) -> vmodel::ir::Val {{ vmodel::ir::Val::Unit }} }}\n", words.join(", ")));
-                reg.push_str(&format!("    v.push(vrt::shape::ShapeEntry {{ mask: {m}, variant_receiver: true, gathered: false, converts_body: false, run: vrt::run::run_from_variant::<SV{m}> }});\n"));
+                reg.push_str(&format!("    v.push(vrt::shape::ShapeEntry {{ mask: {m}, variant_receiver: true, gathered: false, converts_body: false, alt_mask: None, run: vrt::run::run_from_variant::<SV{m}> }});\n"));
                 // the same variant receiver gathered over a whole enum by a `data` member
                 src.push_str(&format!("#[derive(darling::FromDeriveInput)]\npub struct SD{m} {{ pub data: darling::ast::Data<SV{m}, darling::util::Ignored> }}\nimpl vrt::ToVal for SD{m} {{ fn to_val(&self) -> vmodel::ir::Val {{ vmodel::ir::Val::Unit }} }}\n"));
-                reg.push_str(&format!("    v.push(vrt::shape::ShapeEntry {{ mask: {m}, variant_receiver: true, gathered: true, converts_body: true, run: vrt::run::run_from_derive_input::<SD{m}> }});\n"));
+                reg.push_str(&format!("    v.push(vrt::shape::ShapeEntry {{ mask: {m}, variant_receiver: true, gathered: true, converts_body: true, alt_mask: None, run: vrt::run::run_from_derive_input::<SD{m}> }});\n"));
             }
         }
         src.push_str(&format!("fn entries() -> Vec<vrt::shape::ShapeEntry> {{\n    let mut v = vec![];\n{reg}    v\n}}\nfn main() {{ vrt::shape::main(entries()); }}\n"));
